@@ -26,9 +26,11 @@ import itertools
 import json
 import random
 import sys
+import threading
+import time
 from collections import Counter
 
-from harness.common import TICK, Shim, VClock, ensure_repo_on_path, run_driver, to_ticks, wall
+from harness.common import TICK, Shim, VClock, ensure_repo_on_path, run_driver, wall
 
 ensure_repo_on_path()
 
@@ -77,6 +79,22 @@ class ImplRun:
         self.stats_rows = []   # (kind, now, cost, result, before, after)
 
 
+_INV_TICK = round(1.0 / TICK)
+assert _INV_TICK * TICK == 1.0
+
+
+def _ticks(events):
+    """deque of float seconds on the grid -> list of int ticks (exactness checked)"""
+    out = []
+    for e in events:
+        x = e * _INV_TICK
+        k = int(x)
+        if k != x:
+            raise AssertionError(f"deque entry {e!r} is off the tick grid")
+        out.append(k)
+    return out
+
+
 def run_impl(case, clock: VClock, want_rows: bool = True) -> ImplRun:
     """Drive the real Budget.  Requires redress.budget.time to be shimmed onto `clock`."""
     r = ImplRun()
@@ -89,37 +107,41 @@ def run_impl(case, clock: VClock, want_rows: bool = True) -> ImplRun:
         # no object: every later line is a bad-op on the driver side
         r.lines.extend("bad-op" for _ in case["ops"])
         return r
-    r.lines.append("ok")
+    lines, log, rows = r.lines, r.log, r.stats_rows
+    lines.append("ok")
+    ev = []                      # deque after the previous op == deque before this one
     for op in case["ops"]:
         now = op[1]
         clock.ticks = now
-        before = [to_ticks(e) for e in b._events] if want_rows else None
+        before = ev
         if op[0] == "c":
             cost = op[2]
             try:
                 ok = b.consume(cost)
             except ValueError:
-                r.lines.append("reject")
+                lines.append("reject")
+                if list(b._events) != [e * TICK for e in before]:
+                    raise AssertionError("rejected consume touched the deque")
                 if want_rows:
-                    r.stats_rows.append(("c", now, cost, None, before, before))
+                    rows.append(("c", now, cost, None, before, before))
                 continue
             if ok is not True and ok is not False:
                 raise AssertionError(f"consume returned {ok!r}")
-            ev = [to_ticks(e) for e in b._events]
-            r.lines.append(f"granted {1 if ok else 0} events={_ev_tok(ev)}")
-            r.log.append(f"c,{now},{cost},{1 if ok else 0}")
+            ev = _ticks(b._events)
+            lines.append(f"granted {1 if ok else 0} events={_ev_tok(ev)}")
+            log.append(f"c,{now},{cost},{1 if ok else 0}")
             if want_rows:
-                r.stats_rows.append(("c", now, cost, ok, before, ev))
+                rows.append(("c", now, cost, ok, before, ev))
         else:
             n = b.remaining()
             if type(n) is not int:
                 raise AssertionError(f"remaining returned {n!r}")
-            ev = [to_ticks(e) for e in b._events]
-            r.lines.append(f"remaining {n} events={_ev_tok(ev)}")
-            r.log.append(f"r,{now},{n}")
+            ev = _ticks(b._events)
+            lines.append(f"remaining {n} events={_ev_tok(ev)}")
+            log.append(f"r,{now},{n}")
             if want_rows:
-                r.stats_rows.append(("r", now, 0, n, before, ev))
-        r.events = ev
+                rows.append(("r", now, 0, n, before, ev))
+    r.events = ev
     return r
 
 
@@ -186,39 +208,75 @@ def judge(case, impl: ImplRun, model_lines, spec_reply):
     return {"kind": kind, "sig": sig, "diff": diff, "spec": spec_reply}
 
 
+def _run_driver_retry(text):
+    """run_driver, tolerating the executable being re-linked under us (it briefly disappears or is
+    replaced while `lake build driver` runs): wait and retry a few times, then give up loudly."""
+    last = None
+    for _ in range(30):
+        try:
+            return run_driver("budget", text)
+        except (RuntimeError, OSError) as e:
+            if "driver not built" not in str(e) and not isinstance(e, OSError):
+                raise
+            last = e
+            time.sleep(2.0)
+    raise last
+
+
+def _driver_lines(text):
+    out = _run_driver_retry(text)
+    return [ln for ln in out.split("\n") if ln and not ln.startswith("#")]
+
+
 def check_batch(cases, clock, stats=None, spec_all=True):
-    """Run all cases on both sides.  Returns (evaluations, [(case, failure)])."""
-    impls = [run_impl(c, clock, want_rows=stats is not None) for c in cases]
+    """Run all cases on both sides.  Returns (evaluations, spec lines, [(case, failure)]).
+    The driver subprocess runs in a helper thread while this thread drives the implementation."""
     text = "\n".join("\n".join(case_lines(c)) for c in cases) + "\n"
-    out = run_driver("budget", text)
-    model = [ln for ln in out.split("\n") if ln and not ln.startswith("#")]
+    box = {}
+
+    def work():
+        try:
+            box["model"] = _driver_lines(text)
+        except BaseException as e:  # re-raised below
+            box["err"] = e
+
+    th = threading.Thread(target=work)
+    th.start()
+    try:
+        impls = [run_impl(c, clock, want_rows=stats is not None) for c in cases]
+    finally:
+        th.join()
+    if "err" in box:
+        raise box["err"]
+    model = box["model"]
     evaluations = sum(len(r.lines) for r in impls)
     if len(model) != evaluations:
         raise RuntimeError(f"driver answered {len(model)} lines for {evaluations} requests")
     # slice the model's replies per case
     per_case, k = [], 0
     for r in impls:
-        per_case.append(model[k:k + len(r.lines)])
-        k += len(r.lines)
+        n = len(r.lines)
+        per_case.append(model[k:k + n])
+        k += n
     # spec lines on the implementation's logs
     need = []
     for i, (c, r) in enumerate(zip(cases, impls)):
-        if r.ctor_rejected or not is_monotone(c):
+        if r.ctor_rejected:
             continue
-        if spec_all or per_case[i] != r.lines:
+        if (spec_all or per_case[i] != r.lines) and is_monotone(c):
             need.append(i)
     spec_replies = {}
     if need:
-        sout = run_driver("budget", "\n".join(spec_line(cases[i], impls[i]) for i in need) + "\n")
-        slines = [ln for ln in sout.split("\n") if ln and not ln.startswith("#")]
+        slines = _driver_lines("\n".join(spec_line(cases[i], impls[i]) for i in need) + "\n")
         if len(slines) != len(need):
             raise RuntimeError("driver spec: line count mismatch")
         spec_replies = dict(zip(need, slines))
     failures = []
     for i, (c, r) in enumerate(zip(cases, impls)):
-        f = judge(c, r, per_case[i], spec_replies.get(i))
-        if f is not None:
-            failures.append((c, f))
+        if per_case[i] != r.lines or i in spec_replies:
+            f = judge(c, r, per_case[i], spec_replies.get(i))
+            if f is not None:
+                failures.append((c, f))
         if stats is not None:
             stats.add(c, r)
     return evaluations, len(need), failures
@@ -234,16 +292,20 @@ def check_one(case, clock):
 # --------------------------------------------------------------------------------------------
 
 class Stats:
-    def __init__(self):
+    def __init__(self, keep_keys=True):
         self.d = Counter()
         self.max_deque = 0
+        self.keep_keys = keep_keys      # False: cases are distinct by construction (enumeration)
         self.distinct = set()
         self.nontrivial = set()
+        self.n_nontrivial = 0
 
     def add(self, case, r: ImplRun):
         d = self.d
-        key = (case["max"], case["window"], tuple(tuple(o) for o in case["ops"]))
-        self.distinct.add(key)
+        key = None
+        if self.keep_keys:
+            key = (case["max"], case["window"], tuple(tuple(o) for o in case["ops"]))
+            self.distinct.add(key)
         d["cases"] += 1
         if r.ctor_rejected:
             d["ctor_rejected"] += 1
@@ -260,13 +322,13 @@ class Stats:
             if kind == "c" and res is None:
                 d["consume_rejected_cost_lt_1"] += 1
                 continue
-            ages = [now - e for e in before]
-            if w in ages:
-                d["boundary_age_eq_window"] += 1
-            if (w - 1) in ages:
-                d["boundary_age_eq_window_minus_1"] += 1
-            if (w + 1) in ages:
-                d["boundary_age_eq_window_plus_1"] += 1
+            if before:
+                if (now - w) in before:
+                    d["boundary_age_eq_window"] += 1
+                if (now - w + 1) in before:
+                    d["boundary_age_eq_window_minus_1"] += 1
+                if (now - w - 1) in before:
+                    d["boundary_age_eq_window_plus_1"] += 1
             pruned_len = len(after) - (cost if (kind == "c" and res) else 0)
             popped = len(before) - pruned_len
             if popped > 0:
@@ -304,7 +366,11 @@ class Stats:
             if not mono and any(after[i] > after[i + 1] for i in range(len(after) - 1)):
                 d["ops_with_unsorted_deque"] += 1
         if grants and (refusals or aged):
-            self.nontrivial.add(key)
+            if self.keep_keys:
+                self.nontrivial.add(key)
+                self.n_nontrivial = len(self.nontrivial)
+            else:
+                self.n_nontrivial += 1
 
     def as_dict(self):
         out = dict(sorted(self.d.items()))
@@ -586,7 +652,7 @@ def run(tier: str, seed: int) -> dict:
                 ([0, 1, 2, 3], [1, 2], 6),
                 ([0, 1, 2, 3], [3], 5),
             ]
-            ex_stats = Stats()
+            ex_stats = Stats(keep_keys=False)
             ex_total = 0
             ex_eval = 0
             ex_fail = 0
@@ -614,7 +680,7 @@ def run(tier: str, seed: int) -> dict:
                 "histories": ex_total,
                 "request_lines": ex_eval,
                 "failing_histories": ex_fail,
-                "distinct_nontrivial": len(ex_stats.nontrivial),
+                "distinct_nontrivial": ex_stats.n_nontrivial,
                 "distribution": ex_stats.as_dict(),
             }
 
@@ -641,7 +707,7 @@ def run(tier: str, seed: int) -> dict:
     return {
         "family": FAMILY,
         "evaluations": evaluations,
-        "distinct_nontrivial": len(stats.nontrivial),
+        "distinct_nontrivial": stats.n_nontrivial,
         "rule": RULE,
         "samples": samples[:4],
         "distribution": dist,
